@@ -78,6 +78,20 @@ CHECKS = {
                 "theorems, not by a dedicated optimality theorem. pysam/indelpost trusted.",
         "technique": "Lean 4 proof over the guard decision table (shape regenerated from source) + simulated-BAM correspondence through genotype()",
     },
+    "C11": {
+        "text": "Lean model of estimate_diplotype (grouping, placeholders, tandem pairing on a defaultdict, even split, duplicate and rest "
+                "balancing, non-empty repair, flatten + natural sort) and of the natsort key and name rendering. Machine-checked for every input: "
+                "the grouped dictionary holds exactly the indices 0..n-1 plus 2/1/0 deletion placeholders (only with a deletion allele); dictionary "
+                "operations, the stable sort, flattening, the final ordering and the non-empty repair are permutations (no copy lost, duplicated "
+                "or invented); after the repair both sides are non-empty when two or more items were placed. Tie: real estimate_diplotype and "
+                "get_major_diplotype vs the model on multisets of 0-6 copies in all production orders (toy, CYP2D6, CYP2A6, CYP2C19, GSTM1, "
+                "generated genes), get_major_name vs majorName, natsort's key vs natKey on every name; property oracle on every real output.",
+        "design_ref": "DESIGN.md section 4 (C11)",
+        "note": "PARTIAL at theorem level: the end-to-end statement 'output is a permutation of all copies' is proved per phase for grouping, "
+                "sorting, flattening and repair; the three balancing folds and the tandem loop are covered by the correspondence run and the oracle "
+                "(every copy exactly once) rather than by a composed theorem yet. Order clauses rest on natsort (key compared on every name).",
+        "technique": "Lean 4 proof (list permutations by induction) + exhaustive-order differential correspondence with estimate_diplotype",
+    },
 }
 
 NOT_YET = "check not built yet (work in progress; see DESIGN.md section 9 build order)"
